@@ -356,21 +356,6 @@ private theorem cot_two_arctan_exp (η : ℝ) :
   have he : 0 < exp η := exp_pos _
   field_simp
 
-private theorem cot_arccos {ρ z m : ℝ} (hρ : 0 < ρ) (hm : m = ρ ^ 2 + z ^ 2) :
-    cos (arccos (z / sqrt m)) / sin (arccos (z / sqrt m)) = z / ρ := by
-  have hmpos : 0 < m := by rw [hm]; positivity
-  have hs : 0 < sqrt m := sqrt_pos.mpr hmpos
-  have hsq : sqrt m ^ 2 = m := sq_sqrt hmpos.le
-  have hz : z ^ 2 ≤ sqrt m ^ 2 := by rw [hsq, hm]; nlinarith [sq_nonneg ρ]
-  have habs : |z| ≤ sqrt m := abs_le_of_sq_le_sq' hz hs.le |> abs_le.mpr
-  have h1 : -1 ≤ z / sqrt m := by rw [le_div_iff₀ hs]; linarith [(abs_le.mp habs).1]
-  have h2 : z / sqrt m ≤ 1 := by rw [div_le_iff₀ hs]; linarith [(abs_le.mp habs).2]
-  rw [cos_arccos h1 h2, sin_arccos]
-  have : 1 - (z / sqrt m) ^ 2 = (ρ / sqrt m) ^ 2 := by
-    field_simp; rw [hsq, hm]; ring
-  rw [this, sqrt_sq (by positivity)]
-  field_simp
-
 private theorem inv_tan_mul (a b : ℝ) : 1 / (tan a * tan b) = (cos a / sin a) * (cos b / sin b) := by
   rw [tan_eq_sin_div_cos, tan_eq_sin_div_cos, one_div, mul_inv, inv_div, inv_div]
 
@@ -390,16 +375,9 @@ private theorem cot_theta_rhophi_eta (r p η : ℝ) :
     cos (spatial_theta.rhophi_eta r p η) / sin (spatial_theta.rhophi_eta r p η) = sinh η := by
   simp only [d_spatial_theta]; norm_num only; exact cot_two_arctan_exp η
 
-private theorem cot_theta_rhophi_z (r p z : ℝ) (hr : 0 < r) :
-    cos (spatial_theta.rhophi_z r p z) / sin (spatial_theta.rhophi_z r p z) = z / r := by
-  simp only [d_spatial_theta, d_spatial_costheta, d_spatial_mag, d_spatial_mag2, P.nanToNum_eq]
-  exact cot_arccos hr rfl
-
-/-- `dot` of every key is the Cartesian dot product of the denotations. The key `(ρφ,η)·(ρφ,z)` goes through
-`θ₂ = arccos (z₂/|p₂|)` and `1/tan θ₂`, which is singular for `ρ₂ = 0`: it needs `0 < ρ₂`. -/
+/-- `dot` of every key is the Cartesian dot product of the denotations -/
 private theorem dot_key (k0 : Az) (k1 : Lon) (k2 : Az) (k3 : Lon) (a0 a1 a2 a3 a4 a5 : ℝ)
-    (h1 : TanOK k1 a2) (h2 : TanOK k3 a5)
-    (h3 : k0 = .rhophi → k1 = .eta → k2 = .rhophi → k3 = .z → 0 < a3) :
+    (h1 : TanOK k1 a2) (h2 : TanOK k3 a5) :
     spatial_dot.eval k0 k1 k2 k3 a0 a1 a2 a3 a4 a5 = dot3 (cart3 k0 k1 a0 a1 a2) (cart3 k2 k3 a3 a4 a5) := by
   have z1 := refine_spatial_z k0 k1 a0 a1 a2 h1
   have z2 := refine_spatial_z k2 k3 a3 a4 a5 h2
@@ -407,10 +385,6 @@ private theorem dot_key (k0 : Az) (k1 : Lon) (k2 : Az) (k3 : Lon) (a0 a1 a2 a3 a
     simp only [d_spatial_dot, conv_x_xy, conv_x_rhophi, conv_y_xy, conv_y_rhophi, z1, z2, dot3, cart3]
   all_goals simp only [inv_tan_mul, half_exp_sinh, cot_theta_rhophi_eta, xOf, yOf, zOf, rhoOf]
   all_goals try (rw [cos_sub]; ring1)
-  · have h3 := h3 rfl rfl rfl rfl
-    rw [cot_theta_rhophi_z _ _ _ h3, cos_sub]
-    have := ne_of_gt h3
-    field_simp
 
 /-- `mag` of every key is `√(x² + y² + z²)` of the denotations (`0 ≤ ρ`; θ storage: `sin θ ≠ 0`) -/
 private theorem mag_key (k0 : Az) (k1 : Lon) (a b c : ℝ) (h2 : Canon2 k0 a b)
@@ -456,56 +430,39 @@ private theorem deltaangle_split (k0 : Az) (k1 : Lon) (k2 : Az) (k3 : Lon) (a b 
   cases k0 <;> cases k1 <;> cases k2 <;> cases k3 <;> rfl
 
 /-- C02: `deltaangle` of every key is `arccos` of the clamped normalised dot product of the denotations.
-Hypotheses: `0 ≤ ρ` for polar storage, `cos θ ≠ 0` and `sin θ ≠ 0` for θ storage, and `0 < ρ₂` for the one key
-`(ρφ,η)·(ρφ,z)` whose `dot` variant divides by `tan (arccos (z₂/|p₂|))`.
-`_partial`: that last hypothesis is forced by the code, not by the property — for `ρ₂ = 0` (a representable vector on
-the z axis) the library computes `ρ₁·0·(cos Δφ + sinh η₁/tan 0)` = NaN instead of the angle. -/
-theorem refine_spatial_deltaangle_partial (k0 : Az) (k1 : Lon) (k2 : Az) (k3 : Lon) (a b c d e f : ℝ)
+Hypotheses: `0 ≤ ρ` for polar storage, `cos θ ≠ 0` and `sin θ ≠ 0` for θ storage. -/
+theorem refine_spatial_deltaangle (k0 : Az) (k1 : Lon) (k2 : Az) (k3 : Lon) (a b c d e f : ℝ)
     (hc1 : Canon2 k0 a b) (hc2 : Canon2 k2 d e) (ht1 : TanOK k1 c) (ht2 : TanOK k3 f)
-    (hs1 : k1 = .theta → sin c ≠ 0) (hs2 : k3 = .theta → sin f ≠ 0)
-    (h3 : k0 = .rhophi → k1 = .eta → k2 = .rhophi → k3 = .z → 0 < d) :
+    (hs1 : k1 = .theta → sin c ≠ 0) (hs2 : k3 = .theta → sin f ≠ 0) :
     spatial_deltaangle.eval k0 k1 k2 k3 a b c d e f
       = arccos (max (-1) (min 1 (dot3 (cart3 k0 k1 a b c) (cart3 k2 k3 d e f)
           / sqrt (mag2Of k0 k1 a b c) / sqrt (mag2Of k2 k3 d e f)))) := by
-  rw [deltaangle_split, dot_key k0 k1 k2 k3 a b c d e f ht1 ht2 h3, mag_key k0 k1 a b c hc1 hs1,
+  rw [deltaangle_split, dot_key k0 k1 k2 k3 a b c d e f ht1 ht2, mag_key k0 k1 a b c hc1 hs1,
     mag_key k2 k3 d e f hc2 hs2]
 
 /-- C01: every key of `deltaangle` is the Cartesian key on the denotations -/
-theorem refine_spatial_deltaangle_key_partial (k0 : Az) (k1 : Lon) (k2 : Az) (k3 : Lon) (a b c d e f : ℝ)
+theorem refine_spatial_deltaangle_key (k0 : Az) (k1 : Lon) (k2 : Az) (k3 : Lon) (a b c d e f : ℝ)
     (hc1 : Canon2 k0 a b) (hc2 : Canon2 k2 d e) (ht1 : TanOK k1 c) (ht2 : TanOK k3 f)
-    (hs1 : k1 = .theta → sin c ≠ 0) (hs2 : k3 = .theta → sin f ≠ 0)
-    (h3 : k0 = .rhophi → k1 = .eta → k2 = .rhophi → k3 = .z → 0 < d) :
+    (hs1 : k1 = .theta → sin c ≠ 0) (hs2 : k3 = .theta → sin f ≠ 0) :
     spatial_deltaangle.eval k0 k1 k2 k3 a b c d e f
       = spatial_deltaangle.eval .xy .z .xy .z (xOf k0 a b) (yOf k0 a b) (zOf k0 k1 a b c)
           (xOf k2 d e) (yOf k2 d e) (zOf k2 k3 d e f) := by
-  rw [refine_spatial_deltaangle_partial k0 k1 k2 k3 a b c d e f hc1 hc2 ht1 ht2 hs1 hs2 h3]
+  rw [refine_spatial_deltaangle k0 k1 k2 k3 a b c d e f hc1 hc2 ht1 ht2 hs1 hs2]
   rfl
 
 /-- the same under the representable-domain hypotheses `Canon3` (which give `0 < sin θ`, and `0 < ρ` for θ/η storage) -/
-theorem refine_spatial_deltaangle_canon_partial (k0 : Az) (k1 : Lon) (k2 : Az) (k3 : Lon) (a b c d e f : ℝ)
-    (hc1 : Canon3 k0 k1 a b c) (hc2 : Canon3 k2 k3 d e f) (ht1 : TanOK k1 c) (ht2 : TanOK k3 f)
-    (h3 : k0 = .rhophi → k1 = .eta → k2 = .rhophi → k3 = .z → 0 < d) :
+theorem refine_spatial_deltaangle_canon (k0 : Az) (k1 : Lon) (k2 : Az) (k3 : Lon) (a b c d e f : ℝ)
+    (hc1 : Canon3 k0 k1 a b c) (hc2 : Canon3 k2 k3 d e f) (ht1 : TanOK k1 c) (ht2 : TanOK k3 f) :
     spatial_deltaangle.eval k0 k1 k2 k3 a b c d e f
       = spatial_deltaangle.eval .xy .z .xy .z (xOf k0 a b) (yOf k0 a b) (zOf k0 k1 a b c)
           (xOf k2 d e) (yOf k2 d e) (zOf k2 k3 d e f) := by
-  refine refine_spatial_deltaangle_key_partial k0 k1 k2 k3 a b c d e f hc1.1 hc2.1 ht1 ht2 ?_ ?_ h3
+  refine refine_spatial_deltaangle_key k0 k1 k2 k3 a b c d e f hc1.1 hc2.1 ht1 ht2 ?_ ?_
   · rintro rfl; exact (sin_pos_of_pos_of_lt_pi hc1.2.2.1 hc1.2.2.2).ne'
   · rintro rfl; exact (sin_pos_of_pos_of_lt_pi hc2.2.2.1 hc2.2.2.2).ne'
 
-/-- the hypotheses of `refine_spatial_deltaangle_partial` are satisfiable on the key that needs all of them -/
-example : Canon2 .rhophi 2 7 ∧ TanOK .eta (-1) ∧ TanOK .z 5 ∧
-    ((Az.rhophi = .rhophi) → (Lon.eta = .eta) → (Az.rhophi = .rhophi) → (Lon.z = .z) → (0 : ℝ) < 3) :=
-  ⟨by norm_num [Canon2], trivial, trivial, fun _ _ _ _ => by norm_num⟩
-
-/-- the extra hypothesis `0 < ρ₂` of the key `(ρφ,η)·(ρφ,z)` cannot be dropped: at `ρ₂ = 0` the model's `dot`
-(the numerator of `deltaangle`) is `ρ₁·0·(…) = 0` (NaN in floating point: `0·∞`) while the Cartesian dot product of the
-denotations is `z₁ z₂ = sinh 1 ≠ 0`. -/
-theorem refine_spatial_deltaangle_counterexample :
-    spatial_dot.eval .rhophi .eta .rhophi .z 1 0 1 0 0 1 = 0 ∧
-    dot3 (cart3 .rhophi .eta 1 0 1) (cart3 .rhophi .z 0 0 1) = sinh 1 ∧ sinh (1 : ℝ) ≠ 0 := by
-  refine ⟨?_, ?_, ?_⟩
-  · simp only [d_spatial_dot, mul_zero, zero_mul]
-  · simp only [dot3, cart3, xOf, yOf, zOf, rhoOf, zero_mul, mul_zero, add_zero, zero_add, mul_one, one_mul]
-  · exact (sinh_pos_iff.mpr one_pos).ne'
+/-- the hypotheses of `refine_spatial_deltaangle` are satisfiable (one θ operand, one polar operand on the z axis) -/
+example : Canon2 .rhophi 0 7 ∧ Canon2 .xy 3 4 ∧ TanOK .theta 1 ∧ TanOK .z 5 ∧ ((Lon.theta = .theta) → sin (1 : ℝ) ≠ 0) :=
+  ⟨by norm_num [Canon2], trivial, ne_of_gt cos_one_pos, trivial,
+    fun _ => (sin_pos_of_pos_of_lt_pi one_pos (by linarith [two_le_pi])).ne'⟩
 
 end VR
